@@ -206,7 +206,7 @@ def h3_predictors(timeout=200, part=None, **kw):
         soft, hard = resource.getrlimit(resource.RLIMIT_AS)
         with open("/proc/self/statm") as f:
             cur = int(f.read().split()[0]) * resource.getpagesize()
-        resource.setrlimit(resource.RLIMIT_AS, (cur + (1 << 30), hard))          # at most 1 GiB more address space for a few bytes of data
+        _cap_as(cur + (1 << 30), hard)          # at most 1 GiB more address space for a few bytes of data
         try:
             if which == 0:
                 u.apply_png_predictor(12, colors, columns, bpc, bytes(n))
@@ -219,7 +219,7 @@ def h3_predictors(timeout=200, part=None, **kw):
         except Exception:
             pass
         finally:
-            resource.setrlimit(resource.RLIMIT_AS, (soft, hard))
+            _cap_as(soft, hard)
             signal.alarm(0)
             signal.signal(signal.SIGALRM, old)
         try:
@@ -375,6 +375,17 @@ class Hang(Exception):
     pass
 
 
+def _cap_as(soft, hard):
+    """lower the soft address-space limit; where the hard limit does not allow it (or the platform has none) the memory part of the work bound is simply not enforced"""
+    import resource
+    try:
+        if hard != resource.RLIM_INFINITY and soft > hard:
+            soft = hard
+        _cap_as(soft, hard)
+    except (ValueError, OSError):
+        pass
+
+
 ENTRIES = ["text", "xml", "html", "pages", "images"]
 
 
@@ -393,7 +404,7 @@ def run_extract(data, seconds=5, entry="text"):
     soft, hard = resource.getrlimit(resource.RLIMIT_AS)
     with open("/proc/self/statm") as f:
         cur = int(f.read().split()[0]) * resource.getpagesize()
-    resource.setrlimit(resource.RLIMIT_AS, (cur + (2 << 30), hard))          # work bounded in proportion to the input: at most 2 GiB more address space for these few-KB documents
+    _cap_as(cur + (2 << 30), hard)          # work bounded in proportion to the input: at most 2 GiB more address space for these few-KB documents
     try:
         if entry == "text":
             extract_text(io.BytesIO(data))
@@ -420,7 +431,7 @@ def run_extract(data, seconds=5, entry="text"):
     except Exception as e:
         return None if ok_exc(e) else "%s raised %s: %s" % (name, type(e).__name__, str(e)[:200])
     finally:
-        resource.setrlimit(resource.RLIMIT_AS, (soft, hard))
+        _cap_as(soft, hard)
         signal.alarm(0)
         signal.signal(signal.SIGALRM, old)
         if outdir is not None:
